@@ -369,6 +369,13 @@ def square(x):
     return x * x
 
 
+def t_ret_50ms(marker=None):
+    """Ends on its own a moment after the constructor has returned."""
+    import time as _t
+    _t.sleep(0.05)
+    return 7
+
+
 def t_spin(marker=None):
     """Interruptible Python loop that never ends on its own."""
     import time as _t
